@@ -415,6 +415,6 @@ func genSanCfg(r *mon.Rand) *sanCfg {
 			s.Name.Chars = append(s.Name.Chars, '.')
 		}
 	}
-	s.Rep = []rune{'_', '_', '_', '-', 'x', '?', 'é', '中', '😀', ' '}[r.Intn(10)]
+	s.Rep = []rune{'_', '_', '_', '-', 'x', '?', 'é', '中', '😀', ' ', 0}[r.Intn(11)] // (0: the replacement character left unset is the NUL character)
 	return s
 }
